@@ -19,12 +19,14 @@ from mc.engine import exc_symptom, short_tb
 ID = "C14"
 RULE = ("product explorer: (array of a fixed integer-valued family) x (mode n) is one batch case; inside, every "
         "holder of the SAME array (tensor F/C buffer and int64 data, sptensor in 2-4 stored orders and with int64 values, ktensor, ttensor with dense and "
-        "sparse core; Kruskal/Tucker members also natively) x every r in 1..size(n) x flipsign in {T,F} is one real "
+        "sparse core; Kruskal/Tucker members also natively, their factor columns raw integer / unit-norm correlated / orthonormal / "
+        "mixed per mode - the re-scaled members are real-valued, so integer-dtype holders are left out for them) x every r in 1..size(n) x flipsign in {T,F} is one real "
         "nvecs call on a fresh object.  Verdicts are asserted when the reference spectrum has lambda_1 > 0 and a gap "
         "lambda_r - lambda_{r+1} >= 1e-6 lambda_1 (or r = size); other calls are run but counted inadmissible.  "
         "Non-trivial: admissible, and the leading subspace is proper (r < size) or the spectrum is not flat.")
 ASSUMPTIONS = ["reference unfolding/Gram in mc/refmodel.py (loops) and numpy.linalg.eigh are correct",
-               "data are small integers, so the reference Gram matrix is exact; eigen-relations are compared with "
+               "data are small integers (native members with re-scaled factor columns: O(1..100) reals), so the reference Gram "
+               "matrix is exact (resp. accurate to rounding); eigen-relations are compared with "
                "tolerance 1e-8*lambda_1, orthonormality 1e-8, projectors 1e-7 (DESIGN 4.3)",
                "ARPACK's internally random start vector is replaced by a member of a fixed pool of generic vectors "
                "(scipy.sparse.linalg.eigsh/eigs wrapped while nvecs runs; selected by seed, mode, r) so that every case "
@@ -32,14 +34,16 @@ ASSUMPTIONS = ["reference unfolding/Gram in mc/refmodel.py (loops) and numpy.lin
                "holders are built by mc/holders.py; Kruskal/Tucker holders of a plain array use unit-vector / "
                "identity factors"]
 BOUNDS = {
-    "quick": "21 shapes of order 1-4 (mode sizes 2..6, three with singleton modes, <= 36 cells); 16 array members per shape "
+    "quick": "21 shapes of order 1-4 (mode sizes 2..6, three with singleton modes, <= 36 cells); 24 array members per shape "
              "(generic, 2 zero patterns, exact rank 1/2, rank 2 + noise, counts with an empty slice, diagonal Gram "
-             "ascending/mixed, flat Gram, zero, 3 Kruskal-native, 2 Tucker-native); all modes; all r; both flipsign; "
+             "ascending/mixed, flat Gram, zero, 3 Kruskal-native + rank 2 with unit-norm / orthonormal factor columns, Tucker-native "
+             "dense / sparse core x factor columns {raw, unit-norm, orthonormal, mixed per mode}); all modes; all r; both flipsign; "
              "holders: tensor (float64 and int64 data), sptensor x2 orders (+ int64 values), ktensor, ttensor dense core / sparse core / sparse core with "
              "scipy.sparse factors (+ native)",
     "thorough": "all shapes of order 2-3 with sizes 2..6 and <= 72 cells, order 4 with sizes 2..3 and <= 36 cells, "
-                "1-way sizes 2..6 and 9 shapes with singleton modes; 24-28 members per shape (more seeds, rank 3 + noise, "
-                "single-entry, descending diagonal Gram, 5 Kruskal-native, up to 8 Tucker-native); tensor also from a C-ordered "
+                "1-way sizes 2..6 and 9 shapes with singleton modes; 36-60 members per shape (more seeds, rank 3 + noise, "
+                "single-entry, descending diagonal Gram, 5 Kruskal-native + 4 ranks x {unit-norm, orthonormal} columns, up to "
+                "4 Tucker core shapes x dense/sparse core x 4 factor-column structures); tensor also from a C-ordered "
                 "buffer, sptensor in 4 stored orders; everything else as quick",
 }
 CHUNK = 4
